@@ -68,6 +68,8 @@ fn main() {
     "c18" => props::c18::run(&cfg),
     "c04" => props::c04::run(&cfg),
     "c01" => props::c01::run(&cfg),
+    "c03" => props::c03::run(&cfg),
+    "c19" => props::c19::run(&cfg),
     "c06" => props::c06::run(&cfg),
     _ => {
       eprintln!("unknown property {}", prop);
